@@ -9,6 +9,7 @@ mod gens;
 mod model;
 mod props;
 mod shim;
+mod tlsfix;
 mod transport;
 mod vals;
 mod wire;
@@ -60,10 +61,13 @@ fn main() {
         "C08" => dispatch(props::c08::C08, mode, arg),
         "C09" => dispatch(props::c09::C09, mode, arg),
         "C10" => dispatch(props::c10::C10, mode, arg),
+        "C11" => dispatch(props::c11::C11, mode, arg),
         "C12" => dispatch(props::c12::C12, mode, arg),
         "C13" => dispatch(props::c13::C13, mode, arg),
         "C14" => dispatch(props::c14::C14, mode, arg),
         "C15" => dispatch(props::c15::C15, mode, arg),
+        "C19" => dispatch(props::c19::C19, mode, arg),
+        "C20" => dispatch(props::c20::C20, mode, arg),
         "C16" => dispatch(props::c16::C16, mode, arg),
         "C17" => dispatch(props::c17::C17, mode, arg),
         _ => {
